@@ -381,7 +381,6 @@ func contains(l []string, s string) bool {
 	return false
 }
 
-
 // c14EmptyForms: every combination of the three forms being absent, present but empty (count 0,
 // keys [], matrix {} or an axis without values) or really given. Whatever admission accepts must
 // expand to the indexes of the one form that is really given - an empty companion is not a form.
